@@ -4,7 +4,11 @@ No clock.  2-4 simulated "modules" each own a script of add_dependency / get_dep
 get_optional_dependency operations on a handful of key classes; the seed interleaves the scripts
 (elaboration order is whatever the module tree gives).  Every operation is executed on the real
 `DependencyManager` and on a reference model (dict of lists + lock set + cache validity); every return
-value and every raised exception type must agree.
+value and whether the operation raised must agree (the exception type is not part of the statement).
+Left open by the statement and therefore accepted either way, the model following what the library
+did: an add to a locking key whose only reads so far failed; a second add to a simple key (the error may
+come at add time or at get time).  How often `combine` is called is only counted -- a stale cached
+value shows in the value comparison.
 
 Key classes are defined the way the library defines its own keys: frozen dataclasses deriving from
 `SimpleKey` / `ListKey` / `DependencyKey` / `UnifierKey` with the class attributes lock_on_get / cache /
@@ -113,6 +117,7 @@ class Scen(CompScenario):
         # model, per manager: deps[key] = list of tags, locked set, cached[key] = canonical value
         self.deps = [dict() for _ in range(self.ndm)]
         self.locked = [set() for _ in range(self.ndm)]
+        self.maybe_locked = [set() for _ in range(self.ndm)]  # locking keys read only by reads that failed
         self.cached = [dict() for _ in range(self.ndm)]
         self.combines: list = []  # (key id, tags) reported by the wrappers during the current operation
         self.unif: dict = {}  # id(unifier object) -> (object, tags it was built from)
@@ -218,20 +223,21 @@ class Scen(CompScenario):
         key = cls(n) if spec["param"] else cls()  # a fresh, equal instance every time
         dm = self.dms[d]
         deps = self.deps[d].setdefault(kid, [])
-        locked, cached = self.locked[d], self.cached[d]
+        locked, cached, maybe = self.locked[d], self.cached[d], self.maybe_locked[d]
 
         # -- model ----------------------------------------------------------------------------
         exp_combines = []
         was_locked = kid in locked
+        was_maybe = kid in maybe
         had_cache = kid in cached
         if opc == OP_ADD:
             if was_locked:
                 want = "raises:KeyError"
+            elif was_maybe or (spec["kind"] == "simple" and deps):
+                want = None  # either outcome: add after a failed read / second add to a simple key
             else:
                 want = "ok:None"
         else:
-            if spec["lock"]:
-                locked.add(kid)
             if not spec["empty_valid"] and not deps:
                 val = None
             elif kid in cached:
@@ -247,6 +253,13 @@ class Scen(CompScenario):
                 want = "raises:KeyError" if opc == OP_GET else "ok:None"
             else:
                 want = "ok:" + repr(val)
+            if spec["lock"]:
+                if isinstance(val, str) or val is None:  # a failed read: whether it locks is left open
+                    if not was_locked:
+                        maybe.add(kid)
+                else:
+                    locked.add(kid)
+                    maybe.discard(kid)
 
         # -- real -----------------------------------------------------------------------------
         self.combines = []
@@ -262,12 +275,19 @@ class Scen(CompScenario):
         except Violation:
             raise
         except Exception as e:
-            got = "raises:" + type(e).__name__
+            got = "raises"  # the statement says "raises" / "an error", not which exception type
+            self.hit("raised_" + type(e).__name__)
+        want_full = want
+        if want is not None and want.startswith("raises"):
+            want = "raises"
         what = f"{OPNAME[opc]}({self.describe(spec, n)}{', v%d' % tag if opc == OP_ADD else ''}) on manager {d}"
         state = f"[{len(deps)} dependencies: {deps}, {'locked' if was_locked else 'unlocked'}, " \
                 f"{'cached' if had_cache else 'no cache'}]"
         info = dict(op=OPNAME[opc], key_kind=spec["kind"], lock=spec["lock"], cache=spec["cache"])
-        if got != want:
+        if want is None:
+            self.expect(got in ("raises", "ok:None"), "add-refused-or-failed",
+                        f"{what} {state}: library {got}", **info)
+        elif got != want:
             if opc == OP_ADD:
                 k = "add-after-read-not-refused" if want.startswith("raises") else "add-refused-or-failed"
             elif want.startswith("raises") or got.startswith("raises"):
@@ -277,18 +297,23 @@ class Scen(CompScenario):
             else:
                 k = "wrong-value"
             self.expect(False, k, f"{what} {state}: library {got}, documented behaviour {want}", **info)
-        self.expect(self.combines == exp_combines, "combine-calls-differ",
-                    f"{what} {state}: combine was called with {self.combines}, expected {exp_combines} "
-                    f"(cache={'on' if spec['cache'] else 'off'})", **info)
+        if self.combines != exp_combines:
+            self.hit("combine_calls_differ")  # how often combine runs is not stated; staleness shows in the value
 
-        # -- step the model, count what fired ------------------------------------------------------
+        # -- step the model with what the library did, count what fired ---------------------------
+        want = want_full
         if opc == OP_ADD:
-            if was_locked:
-                self.hit("add_refused_locked")
-                if not deps and not spec["empty_valid"]:
+            if got == "raises":
+                if was_locked:
+                    self.hit("add_refused_locked")
+                if was_maybe and not was_locked:
                     self.hit("add_refused_after_failed_read")
+                elif want is None:
+                    self.hit("simple_second_add_refused")
             else:
                 self.hit("add_ok")
+                if was_maybe:
+                    self.hit("add_accepted_after_failed_read")
                 deps.append(tag)
                 if had_cache:
                     self.hit("cache_invalidated_by_add")
@@ -375,7 +400,7 @@ class Prop(PropBase):
             "default_value, field-parameterised or not, drawn per class), 1-2 managers, 2-4 modules with scripts of "
             "add / get / get_optional (provider, consumer, own-then-read, read-then-add, repeated-get styles), "
             "interleaved by the seed (random, bursty or sequential); one evaluation = one run of 20-90 operations, "
-            "each compared with the reference model (value or exception type, and the list every combine received); "
+            "each compared with the reference model (value, or that it raised); "
             "distinct = distinct (key kind, flags, number of dependencies capped at 3, locked, cache valid, operation); "
             "non-trivial = a read, or an add to a locked or cached key")
     expected_cov = ["add_ok", "add_refused_locked", "add_refused_after_failed_read", "locked_by_read",
@@ -392,7 +417,10 @@ class Prop(PropBase):
     state_measure = "(key kind, lock/cache/empty_valid, #dependencies capped at 3, locked, cache valid, operation)"
     assumptions = ["dependency values and default values are not None: get_optional_dependency documents None as "
                    "'not gettable', so get_dependency cannot tell a None value from an absent one",
-                   "a read that fails (KeyError / None) still counts as a read for lock_on_get, as in the code",
+                   "whether a read that fails (KeyError / None / error) counts as a read for lock_on_get is left open: a "
+                   "following add may raise or succeed, the model follows the library",
+                   "a second add to a simple key may raise at add time or the error may come at get time; 'raises' is "
+                   "compared without the exception type; how often combine is called is only counted",
                    "unifier keys keep empty_valid False (MethodProduct requires a non-empty target list)",
                    "no simulator involved: the order of operations is the whole schedule"]
 
